@@ -1,6 +1,8 @@
 //! C06 — one response per query, independent of parallelism, order and schedule.
 use super::{MonOut, Tier};
-use crate::appgen::{build_app, silence_stderr, AppSpec, InputPlugin};
+use crate::appgen::{build_app, silence_stderr, AppSpec, EnergySpec, InputPlugin};
+use crate::world::TravCfg;
+use routee_compass_core::model::cost::vehicle::vehicle_cost_rate::VehicleCostRate;
 use crate::batch::{expansion_key, gen_batch, gen_batch_spec, has_plugin, project, request_superset, BatchWorldOpts, Recorder};
 use crate::hooks::{catch, panic_sig, set_app_sink};
 use crate::report::Report;
@@ -39,7 +41,28 @@ fn first_difference(a: &BTreeMap<String, Vec<String>>, b: &BTreeMap<String, Vec<
 
 fn case(tier: Tier, case_no: usize, rng: &mut Rng, rep: &mut Report) {
     let opts = BatchWorldOpts::default();
-    let spec: AppSpec = gen_batch_spec(rng, &opts);
+    let mut spec: AppSpec = gen_batch_spec(rng, &opts);
+    // energy slice: a vehicle model whose prediction cache is shared by all queries of a run. table values sit on the
+    // cache's key grid (few distinct speeds >= 1 apart, grades at -4..4 key steps around zero), where distinct inputs have
+    // distinct keys and the cache has to be transparent; the reference below is the same application without the cache
+    if let (TravCfg::Speed { speeds, .. }, true) = (&mut spec.world.trav, rng.chance(0.3)) {
+        let ne = speeds.len();
+        let n_speeds = rng.urange(2, 5);
+        let palette: Vec<f64> = (0..n_speeds).map(|i| 15.0 + 7.0 * i as f64 + 0.5 * rng.below(8) as f64).collect();
+        for s in speeds.iter_mut() {
+            *s = *rng.pick(&palette);
+        }
+        let pg = *rng.pick(&[2i32, 3]);
+        let step = 10f64.powi(-pg);
+        let vehicle = ["ice", "bev", "phev"][rng.below(3)].to_string();
+        let grades: Vec<f64> = (0..ne).map(|_| (rng.below(9) as f64 - 4.0) * step).collect();
+        spec.energy = Some(EnergySpec { vehicle: vehicle.clone(), grades, cache: rng.chance(0.8), capacity_kwh: rng.frange(0.5, 60.0), cache_cfg: (*rng.pick(&[2usize, 8, 64]), *rng.pick(&[1i32, 2, 3]), pg) });
+        spec.world.access = crate::world::AccessCfg::None;
+        let e = if vehicle == "ice" { "energy_liquid" } else { "energy_electric" };
+        spec.world.cost.weights.push((e.to_string(), 1.0));
+        spec.world.cost.vehicle_rates.push((e.to_string(), VehicleCostRate::Raw));
+    }
+    let cached = spec.energy.as_ref().map(|e| e.cache).unwrap_or(false);
     let built = match catch(|| build_app(&spec, "c06")) {
         Ok(Ok(b)) => b,
         Ok(Err(e)) => {
@@ -51,8 +74,35 @@ fn case(tier: Tier, case_no: usize, rng: &mut Rng, rep: &mut Report) {
             return;
         }
     };
+    // the reference for a cache-enabled application is the same configuration with the cache switched off
+    let reference_app = if cached {
+        let mut s2 = spec.clone();
+        if let Some(e) = s2.energy.as_mut() {
+            e.cache = false;
+        }
+        match catch(|| build_app(&s2, "c06ref")) {
+            Ok(Ok(b)) => Some(b),
+            _ => {
+                rep.inconclusive("the cache-less reference application could not be built".into());
+                return;
+            }
+        }
+    } else {
+        None
+    };
     let n = if rng.chance(0.2) { rng.urange(1, 6) } else { rng.urange(6, if tier.thorough { 300 } else { 120 }) };
     let mut batch = gen_batch(rng, &spec, n, 0.15, &format!("c{case_no}q"));
+    if let Some(en) = &spec.energy {
+        for (q, _, _) in batch.iter_mut() {
+            if let Some(o) = q.as_object_mut() {
+                o.insert("model_name".into(), json!(en.vehicle));
+                if en.vehicle != "ice" {
+                    o.insert("starting_soc_percent".into(), json!((rng.frange(0.0, 100.0) * 2.0).round() / 2.0));
+                }
+            }
+        }
+        rep.count(if cached { "cases_with_shared_prediction_cache" } else { "cases_with_energy_model_without_cache" }, 1);
+    }
     let queries: Vec<Value> = batch.iter().map(|b| b.0.clone()).collect();
     let plugins: Vec<String> = spec.input_plugins.iter().map(|p| format!("{:?}", p).split([' ', '{', '(']).next().unwrap_or("").to_string()).collect();
     let base_replay = json!({"toml": built.toml, "batch": queries, "world": spec.world.to_json()});
@@ -61,7 +111,8 @@ fn case(tier: Tier, case_no: usize, rng: &mut Rng, rep: &mut Report) {
     let mut alone: Vec<Value> = vec![];
     for (q, m, kind) in batch.iter_mut() {
         rep.eval();
-        let r = catch(|| built.app.run(vec![q.clone()], Some(&json!({"parallelism": 1}))));
+        let ref_app = reference_app.as_ref().map(|b| &b.app).unwrap_or(&built.app);
+        let r = catch(|| ref_app.run(vec![q.clone()], Some(&json!({"parallelism": 1}))));
         match r {
             Err(pm) => {
                 rep.violate(&format!("C06|alone|{}|{}", panic_sig(&pm), kind), format!("a single query made run() panic: {pm}"), || json!({"toml": built.toml, "query": q}));
@@ -108,6 +159,9 @@ fn case(tier: Tier, case_no: usize, rng: &mut Rng, rep: &mut Report) {
     rep.count("alone_runs", batch.len() as u64);
     rep.count("alone_error_responses", n_err as u64);
     rep.count("alone_success_responses", (alone.len() - n_err) as u64);
+    if spec.energy.is_some() {
+        rep.count("energy_model_success_responses_(reference)", (alone.len() - n_err) as u64);
+    }
     // ---- batch runs under different settings and schedules ----
     let runs = if tier.thorough { 6 } else { 4 };
     let mut orders: BTreeSet<u64> = BTreeSet::new();
@@ -156,7 +210,7 @@ fn case(tier: Tier, case_no: usize, rng: &mut Rng, rep: &mut Report) {
         let got = multiset(&responses);
         if got != reference {
             let d = first_difference(&reference, &got);
-            rep.violate(&format!("C06|batch|differs-from-alone|{setting}"), format!("B3 the batch's responses differ from the queries run alone: {d}"), replay);
+            rep.violate(&format!("C06|batch|differs-from-alone|{setting}{}", if cached { "|shared-prediction-cache" } else { "" }), format!("B3 the batch's responses differ from the queries run alone{}: {d}", if cached { " on the same application without the prediction cache" } else { "" }), replay);
             continue;
         }
         // B5 through the LoadBalanced event
